@@ -58,6 +58,11 @@ def main():
     sd, _n = seeded()
     s = re.sub(r"<!-- BEGIN:findings -->.*?<!-- END:findings -->", "<!-- BEGIN:findings -->\n" + f.replace("\\", "\\\\") + "\n<!-- END:findings -->", s, flags=re.S)
     s = re.sub(r"<!-- BEGIN:seeded -->.*?<!-- END:seeded -->", "<!-- BEGIN:seeded -->\n" + sd.replace("\\", "\\\\") + "\n<!-- END:seeded -->", s, flags=re.S)
+    # theorem counts of the status table (10.1): property theorems of Cxx/Props.lean, as the audit counts them
+    for c in range(1, 21):
+        cid = f"C{c:02d}"
+        n = len(json.load(open(V / "evidence" / f"{cid}.json"))["coverage"]["theorems"])    # as audited by the last run
+        s = re.sub(rf"^(\| {cid} \| [^|]*\| )\d+( \|)", rf"\g<1>{n}\g<2>", s, flags=re.M)
     p.write_text(s)
 
 
